@@ -57,3 +57,86 @@ contract("C04", "hmc_take_step", native=False)(hmc_take_step)
 
 from contracts.mcmc_ensemble import ensemble_advance_walker
 contract("C04", "ensemble_advance_walker", native=False)(ensemble_advance_walker)
+
+
+# ---------------------------------------------------------------------------------------------------
+# Parameter: the limit state machine.  Class invariant (the rule Parameter.load uses):
+#   bounded            => proposal is boundary_proposal, lower < upper, width == upper - lower
+#   not bounded, nn    => proposal is abs_proposal
+#   not bounded, not nn=> proposal is standard_proposal
+# Every operation preserves it from every invariant state, changes only its own limit, and leaves the other
+# limit in force; by induction this covers every order of set/clear calls.
+# ---------------------------------------------------------------------------------------------------
+GIBBS = "inference.mcmc.gibbs"
+
+
+def _expected(bounded, nn):
+    return "boundary_proposal" if bounded else ("abs_proposal" if nn else "standard_proposal")
+
+
+def _proposal_name(vc, p):
+    pr = vc.attr(p, "proposal")
+    if vc.mode == "native":
+        return pr.__name__
+    return pr.func.name
+
+
+def _param(vc, bounded, nn):
+    lo = vc.real("lo0")
+    w = vc.real("w0", pos=True)
+    if vc.mode == "native":
+        from inference.mcmc.gibbs import Parameter
+        from pyvc.vc import Handle
+        p = Parameter(1.0, 0.5)
+        if nn:
+            p.non_negative = True
+        if bounded:
+            p.set_boundaries(lo, lo + w)
+        ih = None
+        return Handle(p, None), lo, w
+    p = vc.new(GIBBS, "Parameter", 1.0, 0.5)
+    p.fields["_non_negative"] = nn
+    p.fields["bounded"] = bounded
+    if bounded:
+        p.fields["lower"], p.fields["upper"], p.fields["width"] = lo, lo + w, w
+    p.fields["proposal"] = vc.I.get_attr(p, _expected(bounded, nn))
+    return p, lo, w
+
+
+@contract("C04", "parameter_state_machine")
+def parameter_state_machine(vc):
+    bounded = vc.choice("bounded", [False, True])
+    nn = vc.choice("non_negative", [False, True])
+    p, lo0, w0 = _param(vc, bounded, nn)
+    op = vc.choice("op", ["set_boundaries", "set_bad_boundaries", "remove_boundaries", "nn_on", "nn_off", "nn_bad"])
+    b2, n2 = bounded, nn
+    if op == "set_boundaries":
+        lo = vc.real("lo1")
+        w = vc.real("w1", pos=True)
+        vc.call(p, "set_boundaries", lo, lo + w)
+        b2 = True
+        vc.ensures("set.limits", vc.And(vc.attr(p, "lower") == lo, vc.attr(p, "upper") == lo + w,
+                                        vc.eq(vc.attr(p, "width"), w)))
+    elif op == "set_bad_boundaries":
+        lo = vc.real("lo1")
+        hi = vc.real("hi1")
+        vc.assume(lo >= hi)
+        vc.call(p, "set_boundaries", lo, hi)       # rejected with a warning: nothing changes
+    elif op == "remove_boundaries":
+        vc.call(p, "remove_boundaries")
+        b2 = False
+    elif op == "nn_on":
+        vc.setattr_prop(p, "non_negative", True)
+        n2 = True
+    elif op == "nn_off":
+        vc.setattr_prop(p, "non_negative", False)
+        n2 = False
+    else:
+        vc.setattr_prop(p, "non_negative", 1)      # not a bool: rejected with a warning
+    vc.ensures("flags", vc.And(vc.attr(p, "bounded") == b2, vc.attr(p, "_non_negative") == n2))
+    vc.ensures("proposal_matches_limits_in_force", _proposal_name(vc, p) == _expected(b2, n2))
+    if b2 and op not in ("set_boundaries",):
+        vc.ensures("other_limit_kept", vc.And(vc.attr(p, "lower") == lo0, vc.attr(p, "upper") == lo0 + w0))
+    if b2:
+        vc.ensures("box_well_formed", vc.And(vc.attr(p, "lower") < vc.attr(p, "upper"),
+                                             vc.eq(vc.attr(p, "width"), vc.attr(p, "upper") - vc.attr(p, "lower"))))
